@@ -61,6 +61,14 @@ func verdictOf(info *types.Info, r *ast.ReturnStmt) string {
 	for _, e := range r.Results {
 		cl, ok := ast.Unparen(e).(*ast.CompositeLit)
 		if !ok {
+			// the whole result carried in a variable (a named result filled in field by field)
+			if id, isVar := ast.Unparen(e).(*ast.Ident); isVar {
+				if _, ok := info.ObjectOf(id).(*types.Var); ok {
+					if nt := namedOf(info.TypeOf(e)); nt != nil && nt.Obj().Name() == "GossipValidatorResult" {
+						return "?"
+					}
+				}
+			}
 			continue
 		}
 		if nt := namedOf(info.TypeOf(cl)); nt == nil || nt.Obj().Name() != "GossipValidatorResult" || len(cl.Elts) == 0 {
